@@ -657,6 +657,7 @@ pub fn check(case: &Case, out: &mut CaseOut) {
 
 pub fn property() -> Property {
     Property {
+        fuzz: vec![],
         id: "C05",
         rule: "cases = (INVITE|non-INVITE) x (reliable|unreliable) x scripted response arrivals (time, status) under a paused clock; grid sub-check enumerates first-response instants that bracket every timer edge (schedule instant +-1 ms, 64*T1 +-1 ms) x status class; random sub-check adds 0..4 further responses (duplicates, late finals) at offsets around T4 and 64*T1. Non-trivial = at least one retransmission observed, or a response within 1 ms of a timer edge, or two final responses; distinct by hash of the whole case.",
         assumptions: vec![
